@@ -52,3 +52,8 @@ prop('C01', ['core', 'eslice', 'op'],
 prop('C10', ['core', 'eslice', 'op'],
      nd='EndianReader over arbitrary user buffer types (the CloneStableDeref safety contract is the user\'s); AddressSanitizer-style '
         'whole-run checks; positional clauses of EndianSlice are discharged by Kani on bounded buffers only.')
+
+prop('C05', ['cfi_entries'],
+     nd='agreement of the three lookup paths with an exhaustive scan (needs an iterator-as-sequence spec of the whole section); '
+        'UnwindSection::{fde_for_address, unwind_info_for_address} (trait default methods calling generic functions bounded by the '
+        'same trait: rejected by Verus as a cycle); readelf agreement.')
